@@ -295,3 +295,57 @@ def run(ctx):
     from engine.rworder import rw_order
     n_rw = rw_order(ctx, prog)
     ctx.require(n_rw >= 20, 'only %d writer / reader field sequences paired' % n_rw)
+
+    ctx.rule('PSTR-AGREE', 'AIFF MARK chunk: the chunk length aiff_write_header announces for each cue name (its own arithmetic on strlen) equals the number of bytes the `p` (Pascal string) arm of '
+             'psf_binheader_writef emits for that name, for every name length 0..255 that SF_CUE_POINT.name can hold (both expression chains evaluated exactly for each n): a chunk '
+             'announced longer than it is written makes everything after it unreadable', floor=1)
+    wf_ = prog.fn('psf_binheader_writef', 'common.c')
+    ah_ = prog.fn('aiff_write_header', 'aiff.c')
+    from engine.arms import switch_arm_stmts as _sas12
+
+    def _ev12(f_, n_, env):
+        n_ = f_.unwrap(n_)
+        k_ = n_['k']
+        if n_.get('v') is not None and k_ != 'DeclRefExpr':
+            return n_['v']
+        if k_ == 'DeclRefExpr':
+            return env[n_['n']]
+        if k_ == 'CallExpr' and n_.get('callee') == 'strlen':
+            return env['#strlen']
+        if k_ == 'ConditionalOperator':
+            c_, a_, b_ = n_['kids']
+            return _ev12(f_, f_.N[a_], env) if _ev12(f_, f_.N[c_], env) else _ev12(f_, f_.N[b_], env)
+        if k_ == 'BinaryOperator':
+            x_, y_ = _ev12(f_, f_.N[n_['kids'][0]], env), _ev12(f_, f_.N[n_['kids'][1]], env)
+            return {'+': x_ + y_, '-': x_ - y_, '*': x_ * y_, '&': x_ & y_, '|': x_ | y_, '/': x_ // y_ if y_ else 0, '%': x_ % y_ if y_ else 0, '==': int(x_ == y_), '!=': int(x_ != y_),
+                    '<': int(x_ < y_), '>': int(x_ > y_), '<=': int(x_ <= y_), '>=': int(x_ >= y_)}[n_['op']]
+        raise KeyError(k_)
+    # writer: the statements of the 'p' arm that assign `size`, in order; bytes emitted = 1 + size
+    p_arm = None
+    for sw_ in [n for n in wf_.walk() if n['k'] == 'SwitchStmt']:
+        for vals_, names_, hd_, stmts_ in _sas12(wf_, sw_):
+            if ord('p') in vals_:
+                p_arm = stmts_
+    ctx.require(p_arm is not None, "psf_binheader_writef has no 'p' arm")
+    size_defs = [(a, r) for st in p_arm for lv, a, r in assigned_lvalues(wf_, st) if lv == 'size' and r is not None and a.get('op') == '=']
+    # caller: stringLength = ... ; totalStringLength += <expr over stringLength>
+    sl_defs = [(a, r) for lv, a, r in assigned_lvalues(ah_) if lv == 'stringLength' and r is not None and a.get('op') == '=']
+    tot = [(a, r) for lv, a, r in assigned_lvalues(ah_) if lv == 'totalStringLength' and r is not None and a.get('op') == '+=']
+    ctx.require(size_defs and sl_defs and tot, 'PSTR-AGREE: expression chains not found (size: %d, stringLength: %d, total: %d)' % (len(size_defs), len(sl_defs), len(tot)))
+    bad_ = []
+    try:
+        for n0 in range(256):
+            env = {'#strlen': n0}
+            for a, r in size_defs:
+                env['size'] = _ev12(wf_, r, env)
+            written = 1 + env['size']
+            env2 = {'#strlen': n0}
+            env2['stringLength'] = _ev12(ah_, sl_defs[0][1], env2)
+            announced = _ev12(ah_, tot[0][1], env2)
+            if written != announced:
+                bad_.append((n0, announced, written))
+        ctx.ob('PSTR-AGREE', 'aiff_write_header:MARK', not bad_, ah_.loc(tot[0][0]), 'announced = written for every name length 0..255' if not bad_ else
+               'for name lengths %s the MARK chunk announces %s bytes per name but %s are written: the chunk is shorter than its length field and the file cannot be re-opened' % (
+                   [b[0] for b in bad_[:4]], [b[1] for b in bad_[:4]], [b[2] for b in bad_[:4]]), None)
+    except KeyError as e_:
+        ctx.ob('PSTR-AGREE', 'aiff_write_header:MARK', False, ah_.loc(tot[0][0]), 'length expression uses a construct the evaluator does not model (%s)' % e_, None)
